@@ -181,6 +181,13 @@ func Explore(opts Options, mk func() *Exec) *Stats {
 					if c == lvl {
 						stack = append(stack, item{np, c})
 					} else {
+						if opts.Shards > 1 && lvl == 0 {
+							hh := fnv.New32a()
+							hh.Write(np)
+							if int(hh.Sum32()%uint32(opts.Shards)) != opts.Shard {
+								continue
+							}
+						}
 						levels[c] = append(levels[c], item{np, c})
 					}
 				}
